@@ -1,0 +1,147 @@
+//! Verification hooks (compiled only with `--cfg p2sh_verif`).
+//!
+//! This module holds no checking logic. It only offers thread-local,
+//! off-by-default callback slots that an external harness can arm, plus
+//! logical-time budgets so that a would-be hang becomes a deterministic
+//! outcome. With no callback armed and no budget set every hook is a
+//! thread-local load and a branch.
+#![allow(dead_code)]
+
+use std::cell::{Cell, RefCell};
+
+/// One VM dispatch step, observed before the instruction executes.
+pub struct StepEvent {
+    pub frames_index: usize,
+    pub func: usize, // identity of the instruction stream being executed
+    pub ip: usize,
+    pub sp: usize,
+    pub bp: usize,
+    pub op: u8,
+}
+
+/// Compiler events, in emission order.
+pub enum EmitEvent<'a> {
+    /// `emit()` was called: intent before `make()` narrows the operands
+    Emit {
+        scope: usize,
+        pos: usize,
+        op: u8,
+        operands: &'a [usize],
+    },
+    /// `change_operand()` re-encodes the instruction at `pos`
+    Patch {
+        scope: usize,
+        pos: usize,
+        operand: usize,
+    },
+    /// `replace_last_pop_with_return()` rewrote the opcode at `pos`
+    Replace { scope: usize, pos: usize, op: u8 },
+    /// `remove_last_pop()` cut the stream back to `len`
+    Truncate { scope: usize, len: usize },
+    /// a function / filter scope is complete (`leave_scope`), or the main
+    /// scope is handed out by `bytecode()`
+    ScopeDone { scope: usize, code: &'a [u8] },
+    /// a top-level statement has been compiled; `pos` is the length of the
+    /// main instruction stream after it
+    TopLevelStmt { pos: usize },
+}
+
+type StepFn = Box<dyn FnMut(&StepEvent)>;
+type EmitFn = Box<dyn FnMut(&EmitEvent)>;
+
+thread_local! {
+    static ON_STEP: RefCell<Option<StepFn>> = const { RefCell::new(None) };
+    static ON_EMIT: RefCell<Option<EmitFn>> = const { RefCell::new(None) };
+    static STEP_BUDGET: Cell<Option<u64>> = const { Cell::new(None) };
+    static STEP_BUDGET_ENV_READ: Cell<bool> = const { Cell::new(false) };
+    static TOKEN_BUDGET: Cell<Option<u64>> = const { Cell::new(None) };
+}
+
+pub const STEP_BUDGET_MSG: &str = "verif: step budget exceeded";
+pub const TOKEN_BUDGET_MSG: &str = "verif: token budget exceeded";
+
+pub fn set_on_step(f: Option<StepFn>) {
+    ON_STEP.with(|s| *s.borrow_mut() = f);
+}
+
+pub fn set_on_emit(f: Option<EmitFn>) {
+    ON_EMIT.with(|s| *s.borrow_mut() = f);
+}
+
+pub fn set_step_budget(n: Option<u64>) {
+    STEP_BUDGET_ENV_READ.with(|r| r.set(true));
+    STEP_BUDGET.with(|b| b.set(n));
+}
+
+pub fn set_token_budget(n: Option<u64>) {
+    TOKEN_BUDGET.with(|b| b.set(n));
+}
+
+/// Called at the top of the VM dispatch loop. Returns a message when the
+/// armed step budget is exhausted; the VM turns it into a runtime error.
+pub fn on_step(ev: &StepEvent) -> Option<&'static str> {
+    if !STEP_BUDGET_ENV_READ.with(|r| r.replace(true)) {
+        // The stand-alone binary can be bounded in logical steps
+        if let Ok(v) = std::env::var("P2SH_VERIF_STEP_BUDGET") {
+            if let Ok(n) = v.parse::<u64>() {
+                STEP_BUDGET.with(|b| b.set(Some(n)));
+            }
+        }
+    }
+    ON_STEP.with(|s| {
+        if let Some(f) = s.borrow_mut().as_mut() {
+            f(ev);
+        }
+    });
+    STEP_BUDGET.with(|b| match b.get() {
+        Some(0) => Some(STEP_BUDGET_MSG),
+        Some(n) => {
+            b.set(Some(n - 1));
+            None
+        }
+        None => None,
+    })
+}
+
+pub fn on_emit(ev: &EmitEvent) {
+    ON_EMIT.with(|s| {
+        if let Some(f) = s.borrow_mut().as_mut() {
+            f(ev);
+        }
+    });
+}
+
+/// Called whenever the parser pulls a token from the scanner. Panics with a
+/// recognisable message when the armed token budget is exhausted (the
+/// harness runs the front end under `catch_unwind`).
+pub fn on_token() {
+    TOKEN_BUDGET.with(|b| match b.get() {
+        Some(0) => panic!("{}", TOKEN_BUDGET_MSG),
+        Some(n) => b.set(Some(n - 1)),
+        None => {}
+    })
+}
+
+/// Scripted line source for the REPL: when `P2SH_VERIF_REPL_STDIN` is set,
+/// `Prompt::show` reads its lines from stdin instead of the terminal. Before
+/// each read a marker line `\x1e<n>` is written to stdout and stderr so that
+/// a driver can attribute the output to the line that produced it. End of
+/// input reads as `quit`.
+pub fn repl_scripted_line() -> Option<String> {
+    thread_local! {
+        static COUNT: Cell<u64> = const { Cell::new(0) };
+    }
+    std::env::var_os("P2SH_VERIF_REPL_STDIN")?;
+    let n = COUNT.with(|c| c.replace(c.get() + 1));
+    println!("\x1e{}", n);
+    eprintln!("\x1e{}", n);
+    let mut line = String::new();
+    match std::io::stdin().read_line(&mut line) {
+        Ok(0) | Err(_) => Some("quit".to_string()),
+        Ok(_) => {
+            let line = line.strip_suffix('\n').unwrap_or(&line);
+            let line = line.strip_suffix('\r').unwrap_or(line);
+            Some(line.to_string())
+        }
+    }
+}
